@@ -107,7 +107,7 @@ Definition wfst (st : pstate) : Prop :=
 Definition held (pid : bytes) (st : pstate) (p n : bytes) : Z :=
   msum (fst (fst st)) p n + content (massets (snd (fst st))) p n + (if bytes_eqb pid p then aget (snd st) n else 0).
 
-Lemma asset_step_held c addr pid st nq : wfst st ->
+Lemma asset_step_held c addr mc pid st nq : wfst st ->
   wfst (asset_step c addr mc pid st nq)
   /\ forall p n, held pid (asset_step c addr mc pid st nq) p n
                  = held pid st p n + (if bytes_eqb pid p then (if bytes_eqb (fst nq) n then snd nq else 0) else 0).
@@ -136,14 +136,14 @@ Proof.
       destruct (bytes_eqb pid p); lia.
 Qed.
 
-Lemma asset_fold_held c addr pid assets : forall st, wfst st ->
+Lemma asset_fold_held c addr mc pid assets : forall st, wfst st ->
   wfst (fold_left (asset_step c addr mc pid) assets st)
   /\ forall p n, held pid (fold_left (asset_step c addr mc pid) assets st) p n
                  = held pid st p n + (if bytes_eqb pid p then flata assets n else 0).
 Proof.
   induction assets as [|nq assets IH]; intros st W; cbn [fold_left].
   - split; [exact W|]. intros p n. rewrite flata_nil. destruct (bytes_eqb pid p); lia.
-  - destruct (asset_step_held c addr pid st nq W) as [W1 H1].
+  - destruct (asset_step_held c addr mc pid st nq W) as [W1 H1].
     destruct (IH _ W1) as [W2 H2]. split; [exact W2|].
     intros p n. rewrite H2, H1. destruct nq as [k q]. rewrite flata_cons. cbn [fst snd]. destruct (bytes_eqb pid p); lia.
 Qed.
@@ -152,13 +152,13 @@ Qed.
 Definition wfpo (s : list masset * value) : Prop := Forall wfm (fst s) /\ wfv (snd s).
 Definition held2 (s : list masset * value) (p n : bytes) : Z := msum (fst s) p n + content (massets (snd s)) p n.
 
-Lemma policy_step_held c addr s pa s' : wfpo s ->
+Lemma policy_step_held c addr mc s pa s' : wfpo s ->
   policy_step c addr mc (Ok s) pa = Ok s' ->
   wfpo s' /\ forall p n, held2 s' p n = held2 s p n + (if bytes_eqb (fst pa) p then flata (snd pa) n else 0).
 Proof.
   destruct s as [arr out]. destruct pa as [pid assets]. intros [Wa Wo] H. cbn [policy_step fst snd] in H.
   assert (W0 : wfst (arr, out, [])) by (repeat split; cbn [fst snd]; try assumption; try apply Wo; constructor).
-  destruct (asset_fold_held c addr pid assets _ W0) as [(Wa1 & Wo1 & Wt1) H1].
+  destruct (asset_fold_held c addr mc pid assets _ W0) as [(Wa1 & Wo1 & Wt1) H1].
   set (st1 := fold_left (asset_step c addr mc pid) assets (arr, out, [])) in *.
   destruct (too_big c addr mc (flush (snd (fst st1)) pid (snd st1))); [discriminate|].
   inversion H; subst s'. clear H.
@@ -169,19 +169,19 @@ Proof.
   destruct (bytes_eqb pid p); lia.
 Qed.
 
-Lemma policy_step_err c addr e pa : policy_step c addr mc (Err e) pa = Err e.
+Lemma policy_step_err c addr mc e pa : policy_step c addr mc (Err e) pa = Err e.
 Proof. reflexivity. Qed.
-Lemma policy_fold_err c addr e l : fold_left (policy_step c addr mc) l (Err e) = Err e.
+Lemma policy_fold_err c addr mc e l : fold_left (policy_step c addr mc) l (Err e) = Err e.
 Proof. induction l; cbn; auto. Qed.
 
-Lemma policy_fold_held c addr l : forall s s', wfpo s ->
+Lemma policy_fold_held c addr mc l : forall s s', wfpo s ->
   fold_left (policy_step c addr mc) l (Ok s) = Ok s' ->
   wfpo s' /\ forall p n, held2 s' p n = held2 s p n + flatm l p n.
 Proof.
   induction l as [|pa l IH]; intros s s' W H; cbn [fold_left] in H.
   - inversion H; subst. split; [exact W|]. intros p n. rewrite flatm_nil. lia.
   - destruct (policy_step c addr mc (Ok s) pa) as [s1|e] eqn:E.
-    + destruct (policy_step_held c addr s pa s1 W E) as [W1 H1].
+    + destruct (policy_step_held c addr mc s pa s1 W E) as [W1 H1].
       destruct (IH _ _ W1 H) as [W2 H2]. split; [exact W2|].
       intros p n. rewrite H2, H1. destruct pa as [k a]. rewrite flatm_cons. cbn [fst snd]. lia.
     + rewrite policy_fold_err in H. discriminate.
@@ -197,7 +197,7 @@ Proof.
     [|discriminate].
   inversion H; subst arr. clear H.
   assert (W0 : wfpo ([], mkValue (coin change) [])) by (split; [constructor | apply wfm_nil]).
-  destruct (policy_fold_held c addr _ _ _ W0 E) as [[Wa Wo] H1]. cbn [fst snd] in *.
+  destruct (policy_fold_held c addr _ _ _ _ W0 E) as [[Wa Wo] H1]. cbn [fst snd] in *.
   split.
   - intros p n. rewrite msum_app. specialize (H1 p n).
     assert (Z0 : held2 ([], mkValue (coin change) []) p n = 0) by reflexivity.
@@ -229,7 +229,7 @@ Proof. split; [constructor | intros; rewrite content_nil; lia]. Qed.
 Definition posst (st : pstate) : Prop :=
   Forall good_m (fst (fst st)) /\ good_m (massets (snd (fst st))) /\ forall n, 0 <= aget (snd st) n.
 
-Lemma asset_step_pos c addr pid st nq : wfst st -> posst st -> 0 <= snd nq ->
+Lemma asset_step_pos c addr mc pid st nq : wfst st -> posst st -> 0 <= snd nq ->
   posst (asset_step c addr mc pid st nq).
 Proof.
   destruct st as [[arr out] tmp]. destruct nq as [k q]. intros (Wa & Wo & Wt) (Pa & Po & Pt) Hq. cbn [fst snd] in *.
@@ -248,7 +248,7 @@ Proof.
     intros n. rewrite a_add_single_get by exact Wt. specialize (Pt n). destruct (bytes_eqb k n); lia.
 Qed.
 
-Lemma asset_fold_pos c addr pid assets : forall st, wfst st -> posst st -> nonneg_a assets ->
+Lemma asset_fold_pos c addr mc pid assets : forall st, wfst st -> posst st -> nonneg_a assets ->
   posst (fold_left (asset_step c addr mc pid) assets st).
 Proof.
   induction assets as [|nq assets IH]; intros st W P Hn; cbn [fold_left]; [exact P|].
@@ -257,14 +257,14 @@ Qed.
 
 Definition pospo (s : list masset * value) : Prop := Forall good_m (fst s) /\ good_m (massets (snd s)).
 
-Lemma policy_step_pos c addr s pa s' : wfpo s -> pospo s -> nonneg_a (snd pa) ->
+Lemma policy_step_pos c addr mc s pa s' : wfpo s -> pospo s -> nonneg_a (snd pa) ->
   policy_step c addr mc (Ok s) pa = Ok s' -> pospo s'.
 Proof.
   destruct s as [arr out]. destruct pa as [pid assets]. intros [Wa Wo] [Pa Po] Hn H. cbn [policy_step fst snd] in *.
   assert (W0 : wfst (arr, out, [])) by (repeat split; cbn [fst snd]; try assumption; try apply Wo; constructor).
   assert (P0 : posst (arr, out, [])) by (repeat split; cbn [fst snd]; try assumption; try apply Po; intros; rewrite aget_nil; lia).
-  destruct (asset_fold_held c addr pid assets _ W0) as [(Wa1 & Wo1 & Wt1) _].
-  pose proof (asset_fold_pos c addr pid assets _ W0 P0 Hn) as (Pa1 & Po1 & Pt1).
+  destruct (asset_fold_held c addr mc pid assets _ W0) as [(Wa1 & Wo1 & Wt1) _].
+  pose proof (asset_fold_pos c addr mc pid assets _ W0 P0 Hn) as (Pa1 & Po1 & Pt1).
   set (st1 := fold_left (asset_step c addr mc pid) assets (arr, out, [])) in *.
   destruct (too_big c addr mc (flush (snd (fst st1)) pid (snd st1))); [discriminate|].
   inversion H; subst s'. clear H.
@@ -274,14 +274,14 @@ Proof.
   destruct (bytes_eqb pid p); lia.
 Qed.
 
-Lemma policy_fold_pos c addr l : forall s s', wfpo s -> pospo s -> nonneg_m l ->
+Lemma policy_fold_pos c addr mc l : forall s s', wfpo s -> pospo s -> nonneg_m l ->
   fold_left (policy_step c addr mc) l (Ok s) = Ok s' -> pospo s'.
 Proof.
   induction l as [|pa l IH]; intros s s' W P Hn H; cbn [fold_left] in H.
   - inversion H; subst. exact P.
   - inversion Hn as [|? ? Hpa Hl]; subst. destruct (policy_step c addr mc (Ok s) pa) as [s1|e] eqn:E.
-    + destruct (policy_step_held c addr s pa s1 W E) as [W1 _].
-      apply (IH s1 s' W1); [exact (policy_step_pos c addr s pa s1 W P Hpa E) | exact Hl | exact H].
+    + destruct (policy_step_held c addr mc s pa s1 W E) as [W1 _].
+      apply (IH s1 s' W1); [exact (policy_step_pos c addr mc s pa s1 W P Hpa E) | exact Hl | exact H].
     + rewrite policy_fold_err in H. discriminate.
 Qed.
 
@@ -295,7 +295,7 @@ Proof.
   inversion H; subst arr. clear H.
   assert (W0 : wfpo ([], mkValue (coin change) [])) by (split; [constructor | apply wfm_nil]).
   assert (P0 : pospo ([], mkValue (coin change) [])) by (split; [constructor | apply good_nil]).
-  pose proof (policy_fold_pos c addr _ _ _ W0 P0 Hn E) as [Pa Po]. cbn [fst snd] in *.
+  pose proof (policy_fold_pos c addr _ _ _ _ W0 P0 Hn E) as [Pa Po]. cbn [fst snd] in *.
   assert (G : Forall good_m (arr1 ++ [massets out])) by (apply Forall_app; split; [exact Pa | constructor; [exact Po | constructor]]).
   rewrite Forall_forall in *. intros m Hm. apply all_pos_of_content; [apply Wf, Hm | apply G, Hm].
 Qed.
@@ -393,11 +393,11 @@ Proof.
 Qed.
 
 Definition reqd (c : cfg) (addr : bytes) (v : value) : Z := min_lovelace c (plain addr v).
-Lemma too_big_eq c addr v :
-  too_big c addr mc v = (max_val_size c <? Z.of_N (Wd (reqd c addr v) + msz (massets v))).
+Lemma too_big_eq c addr mc v :
+  too_big c addr mc v = (max_val_size c <? Z.of_N (Wd (Z.max (reqd c addr v) mc) + msz (massets v))).
 Proof. unfold too_big, vsize, reqd. now rewrite vsize_split. Qed.
 
-Lemma too_big_canon c addr v1 v2 : wfv v1 -> wfv v2 -> coin v1 = coin v2 ->
+Lemma too_big_canon c addr mc v1 v2 : wfv v1 -> wfv v2 -> coin v1 = coin v2 ->
   (forall p n, content (massets v1) p n = content (massets v2) p n) -> too_big c addr mc v1 = too_big c addr mc v2.
 Proof.
   intros W1 W2 C H. rewrite !too_big_eq. unfold reqd. rewrite !min_lovelace_plain.
@@ -405,23 +405,23 @@ Proof.
 Qed.
 
 (* ================================================================== C. every part fits *)
-Definition fit (c : cfg) (addr : bytes) (v : value) : Prop := too_big c addr mc v = false.
+Definition fit (c : cfg) (addr : bytes) (mc : Z) (v : value) : Prop := too_big c addr mc v = false.
 (* every single asset of the bundle fits into a value of its own *)
-Definition singles_fit (c : cfg) (addr : bytes) (m : masset) : Prop :=
+Definition singles_fit (c : cfg) (addr : bytes) (mc : Z) (m : masset) : Prop :=
   Forall (fun pa => Forall (fun nq => fit c addr mc (mkValue 0 [(fst pa, [nq])])) (snd pa)) m.
-Definition part_fits (c : cfg) (addr : bytes) (ma : masset) : Prop := exists c0, fit c addr mc (mkValue c0 ma).
+Definition part_fits (c : cfg) (addr : bytes) (mc : Z) (ma : masset) : Prop := exists c0, fit c addr mc (mkValue c0 ma).
 
 Lemma value_eta v : mkValue (coin v) (massets v) = v.
 Proof. now destruct v. Qed.
 
-Lemma fit_flush_nil c addr out pid : wfv out -> fit c addr mc (flush out pid []) <-> fit c addr mc out.
+Lemma fit_flush_nil c addr mc out pid : wfv out -> fit c addr mc (flush out pid []) <-> fit c addr mc out.
 Proof.
   intros Wo. destruct (flush_spec out pid [] Wo ltac:(constructor)) as (W & C & _ & M).
-  unfold fit. rewrite (too_big_canon c addr (flush out pid []) out W Wo C); [reflexivity|].
+  unfold fit. rewrite (too_big_canon c addr mc (flush out pid []) out W Wo C); [reflexivity|].
   intros p n. rewrite M, aget_nil. destruct (bytes_eqb pid p); lia.
 Qed.
 
-Definition fitst (c : cfg) (addr pid : bytes) (st : pstate) : Prop :=
+Definition fitst (c : cfg) (addr : bytes) (mc : Z) (pid : bytes) (st : pstate) : Prop :=
   Forall (part_fits c addr mc) (fst (fst st)) /\ fit c addr mc (flush (snd (fst st)) pid (snd st)).
 
 Lemma asset_step_fit c addr mc pid st nq : wfst st -> fitst c addr mc pid st ->
@@ -433,13 +433,13 @@ Proof.
   - split; cbn [fst snd].
     + apply Forall_app. split; [exact Fa|]. constructor; [|constructor].
       destruct tmp as [|x r]; cbn [is_nil].
-      * exists (coin out). rewrite value_eta. now apply (fit_flush_nil c addr out pid Wo).
+      * exists (coin out). rewrite value_eta. now apply (fit_flush_nil c addr mc out pid Wo).
       * exists (coin (flush out pid (x :: r))). now rewrite value_eta.
     + (* a fresh output holding just this asset *)
       assert (Wt' : wfd (a_add [] [(k, q)])) by (apply a_add_wfd; constructor).
       assert (W0 : wfv (mkValue 0 [])) by apply wfm_nil.
       destruct (flush_spec (mkValue 0 []) pid _ W0 Wt') as (W & C & _ & M).
-      unfold fit. rewrite (too_big_canon c addr _ (mkValue 0 [(pid, [(k, q)])]) W); [exact Hs | | exact C |].
+      unfold fit. rewrite (too_big_canon c addr mc _ (mkValue 0 [(pid, [(k, q)])]) W); [exact Hs | | exact C |].
       * apply wfm_single, wfd_single.
       * intros p n. rewrite M. cbn [massets]. rewrite content_nil, content_single, aget_single.
         rewrite a_add_single_get by constructor. rewrite aget_nil. destruct (bytes_eqb pid p); lia.
@@ -462,7 +462,7 @@ Proof.
   apply IH; [apply asset_step_held, W | now apply asset_step_fit | exact H2].
 Qed.
 
-Definition fitpo (c : cfg) (addr : bytes) (s : list masset * value) : Prop :=
+Definition fitpo (c : cfg) (addr : bytes) (mc : Z) (s : list masset * value) : Prop :=
   Forall (part_fits c addr mc) (fst s) /\ fit c addr mc (snd s).
 
 Lemma policy_step_fit c addr mc s pa s' : wfpo s -> fitpo c addr mc s ->
@@ -478,13 +478,13 @@ Proof.
   inversion H; subst s'. split; cbn [fst snd]; [exact Fa1 | exact T].
 Qed.
 
-Lemma policy_fold_fit c addr mc l : forall s s', wfpo s -> fitpo c addr mc s -> singles_fit c addr mc mc l ->
+Lemma policy_fold_fit c addr mc l : forall s s', wfpo s -> fitpo c addr mc s -> singles_fit c addr mc l ->
   fold_left (policy_step c addr mc) l (Ok s) = Ok s' -> fitpo c addr mc s'.
 Proof.
   induction l as [|pa l IH]; intros s s' W F Hs H; cbn [fold_left] in H.
   - inversion H; subst. exact F.
   - inversion Hs as [|? ? Hpa Hl]; subst. destruct (policy_step c addr mc (Ok s) pa) as [s1|e] eqn:E.
-    + destruct (policy_step_held c addr s pa s1 W E) as [W1 _].
+    + destruct (policy_step_held c addr mc s pa s1 W E) as [W1 _].
       apply (IH s1 s' W1); [exact (policy_step_fit c addr mc s pa s1 W F Hpa E) | exact Hl | exact H].
     + rewrite policy_fold_err in H. discriminate.
 Qed.
@@ -492,7 +492,7 @@ Qed.
 (* pack_fits: when every single asset fits, every part passed the size test (sized with the minimum ADA
    of the output carrying it) *)
 Theorem pack_fits c addr change arr : wfm (massets change) ->
-  singles_fit c addr mc mc (massets change) -> fit c addr mc (mkValue (coin change) []) ->
+  singles_fit c addr mc (massets change) -> fit c addr mc (mkValue (coin change) []) ->
   pack_tokens c addr change = Ok arr -> Forall (part_fits c addr mc) arr.
 Proof.
   intros W Hs Hb H. unfold pack_tokens in H.
@@ -509,11 +509,11 @@ Qed.
 (* and then the packer does not refuse: the InvalidTransactionException of the final re-check needs an
    asset that does not fit on its own *)
 Theorem pack_total c addr change : wfm (massets change) ->
-  singles_fit c addr mc mc (massets change) -> fit c addr mc (mkValue (coin change) []) ->
+  singles_fit c addr mc (massets change) -> fit c addr mc (mkValue (coin change) []) ->
   exists arr, pack_tokens c addr change = Ok arr.
 Proof.
   intros W Hs Hb. unfold pack_tokens.
-  assert (G : forall l s, wfpo s -> fitpo c addr mc s -> singles_fit c addr mc mc l ->
+  assert (G : forall l s, wfpo s -> fitpo c addr mc s -> singles_fit c addr mc l ->
               exists s', fold_left (policy_step c addr mc) l (Ok s) = Ok s').
   { induction l as [|pa l IH]; intros s Ws Fs Hl; cbn [fold_left]; [now exists s|].
     inversion Hl as [|? ? Hpa Hl']; subst.
@@ -525,7 +525,7 @@ Proof.
     destruct (policy_step c addr mc (Ok (arr, out)) (pid, assets)) as [s1|e] eqn:E.
     - assert (Wp : wfpo (arr, out)) by (split; assumption).
       assert (Fp : fitpo c addr mc (arr, out)) by (split; assumption).
-      destruct (policy_step_held c addr (arr, out) (pid, assets) s1 Wp E) as [W1 _].
+      destruct (policy_step_held c addr mc (arr, out) (pid, assets) s1 Wp E) as [W1 _].
       apply IH; [exact W1 | exact (policy_step_fit c addr mc (arr, out) (pid, assets) s1 Wp Fp Hpa E) | exact Hl'].
     - exfalso. cbn [policy_step fst snd] in E. unfold fit in Fo1. rewrite Fo1 in E. discriminate. }
   assert (W0 : wfpo ([], mkValue (coin change) [])) by (split; [constructor | apply wfm_nil]).
